@@ -33,11 +33,14 @@ EXPLANATION = ("G1 on every path of the frame decoder, `Ok(None)` (need more byt
                "so not claimed either way).")
 TRUSTED = ['tokio_util::codec::Framed (its read loop hands the read buffer to Decoder::decode and to nobody else; accessor semantics as tabulated in rules/readbuf.py after tokio-util 0.7)', 'nom streaming parsers report Incomplete on short input', 'bytes::BytesMut::advance']
 UNDECIDED = ['Framed\'s read loop (trusted)', 'sizes beyond the read buffer (runtime quantity)']
-ASSUMPTIONS = []
+ASSUMPTIONS = ['G4 / G7: a test that Decoder::decode makes of the message ID the frame decoder delivered is decided under 0 <= ID <= maxInt, the bound C01 R1.message-id-exact / C11 H8 decide for every delivered ID']
 SHARED = [('C07', ('B2.reader',), 'G5.length-reader'), ('C07', ('B7.', 'B4.remainder'), 'G6.tlv-parser')]      # the frame boundary is where the length reader says it is, however the bytes arrive
 CONFIGS = ['default', 'nodefault', 'rustls', 'gssapi']
 QUICK_CONFIGS = ['default', 'gssapi']      # the SASL token layer (G7) exists only with the gssapi feature
 
+# what C01 R1.message-id-exact / C11 H8 establish about every message ID the frame decoder delivers (RFC 4511 4.1.1.1: 0 .. maxInt); G4 / G7
+# decide a test of the delivered ID in Decoder::decode under it (rules/wrapper.py) - if it did not hold, those two rules report it
+DELIVERED_IDS = (0, 2 ** 31 - 1)
 MUTATORS = ('advance', 'split_to', 'split_off', 'split', 'truncate', 'clear', 'resize', 'extend', 'extend_from_slice', 'put', 'put_slice', 'unsplit', 'set_len', 'freeze', 'copy_to_bytes', 'get_u8')
 
 def check_frame_decoder(ctx, f, G1='G1', G2='G2'):
@@ -181,7 +184,7 @@ def run(ctx):
         else:
             # every path of decode answers what the frame decoder answers for the caller's buffer; a test of its own may answer
             # Ok(None) only where the frame decoder would (rules/wrapper.py: decided per value of the first length octet)
-            wrapper.check(ctx, f, D, dp, 'G4.decode-is-frame-decoder')
+            wrapper.check(ctx, f, D, dp, 'G4.decode-is-frame-decoder', id_range=DELIVERED_IDS)
     else:
         # gssapi: the SASL layer keeps state; the frame decoder itself (G1/G2 above) is what is decided, on whichever buffer it is given
         calls = [n for n, c in walk(D.root) if n['k'] == 'Call' and callee_of(n) == dp]
@@ -192,14 +195,24 @@ def run(ctx):
         # needs (a length comparison that holds) answers Ok(None).  A literal Ok(None) path has not touched the buffer.
         # G7 (plain connection) with the codec in the state it is constructed in - no security layer was negotiated - decode is the
         # frame decoder applied to the caller's buffer, exactly as in the configuration without the layer (rules/wrapper.py)
-        wrapper.check(ctx, f, D, dp, 'G7.plain-connection-is-frame-decoder')
+        wrapper.check(ctx, f, D, dp, 'G7.plain-connection-is-frame-decoder', id_range=DELIVERED_IDS)
         buf = ('param', 'buf')
         n_err = n_wait = 0
         for o in absx.Interp(f, D, combinators=True).run():
             if o.kind not in ('val', 'ret'):
                 continue
             v = o.val
-            from_decoder = v[0] == 'call' and v[1] == dp
+            # the frame decoder's own answer: its call term, the failure side of a `?` applied to it, or its error rebuilt (`Err(e)` /
+            # `Err(e.into())` with e the payload of its Err - the identity for the decoder's own error type)
+            e_ = v
+            while e_[0] == 'tryerr':
+                e_ = e_[1]
+            if e_[0] == 'ctor' and e_[1] == 'Err' and len(e_[2]) == 1:
+                e_ = e_[2][0]
+                while e_[0] == 'call' and e_[1].rsplit('::', 1)[-1] in ('from', 'into') and len(e_[2]) == 1:
+                    e_ = e_[2][0]
+                e_ = e_[1] if e_[0] == 'variant' and e_[2] == 'Err' else ('unk',)
+            from_decoder = e_[0] == 'call' and e_[1] == dp
             is_err = (v[0] == 'ctor' and v[1] == 'Err') or v[0] == 'tryerr'
             muts = [e for e in o.st.ev if e[0] == 'call' and e[2] and e[2][0] == buf and e[1].rsplit('::', 1)[-1] in ('advance', 'split_to', 'split_off', 'clear', 'truncate', 'split', 'extend', 'extend_from_slice', 'reserve', 'unsplit')]
             if is_err and not from_decoder:
